@@ -1,3 +1,345 @@
+//! Emission skeleton of functions that handle a yasna writer (engine S front end).
+//!
+//! For every fn (free or in an impl) that takes a `DERWriter`/`DERWriterSeq` parameter or passes a
+//! closure to a DER constructor, the control skeleton of its writer calls is printed as JSON:
+//! cons / tagged / prim / call / if / match / for / let / return / cfg / opaque nodes.  Expressions
+//! are given as token-stream text (tokens separated by blanks); nothing is interpreted here.
 use crate::Src;
-use serde_json::Value;
-pub fn run_file(_src: &Src, _path: &str, _file: &syn::File, _units: &mut Vec<Value>) {}
+use quote::ToTokens;
+use serde_json::{json, Value};
+use std::collections::HashSet;
+use syn::spanned::Spanned;
+use syn::*;
+
+fn txt<T: ToTokens>(t: &T) -> String {
+	t.to_token_stream().to_string()
+}
+
+fn is_writer_ty(t: &Type) -> bool {
+	txt(t).contains("DERWriter")
+}
+
+const CONS: [&str; 4] = ["write_sequence", "write_sequence_of", "write_set", "write_set_of"];
+
+struct Cx<'a> {
+	writers: HashSet<String>,
+	src: &'a Src,
+}
+
+fn cfg_of(attrs: &[Attribute]) -> Option<String> {
+	for a in attrs {
+		if a.path().is_ident("cfg") {
+			return Some(txt(&a.meta));
+		}
+	}
+	None
+}
+
+fn cond_json(e: &Expr) -> Value {
+	match e {
+		Expr::Paren(p) => cond_json(&p.expr),
+		Expr::Group(g) => cond_json(&g.expr),
+		Expr::Unary(u) if matches!(u.op, UnOp::Not(_)) => json!({"not": cond_json(&u.expr)}),
+		Expr::Binary(b) if matches!(b.op, BinOp::Or(_)) => {
+			json!({"or": [cond_json(&b.left), cond_json(&b.right)]})
+		},
+		Expr::Binary(b) if matches!(b.op, BinOp::And(_)) => {
+			json!({"and": [cond_json(&b.left), cond_json(&b.right)]})
+		},
+		Expr::Let(l) => json!({"let": {"pat": txt(&l.pat), "expr": txt(&l.expr)}}),
+		_ => json!({"atom": txt(e)}),
+	}
+}
+
+impl<'a> Cx<'a> {
+	fn is_slot(&self, e: &Expr) -> bool {
+		match e {
+			Expr::Path(p) => p
+				.path
+				.get_ident()
+				.map(|i| self.writers.contains(&i.to_string()))
+				.unwrap_or(false),
+			Expr::MethodCall(m) if m.method == "next" && m.args.is_empty() => self.is_slot(&m.receiver),
+			Expr::Paren(p) => self.is_slot(&p.expr),
+			_ => false,
+		}
+	}
+	fn uses_writer(&self, e: &Expr) -> bool {
+		let s = format!(" {} ", txt(e));
+		self.writers.iter().any(|w| s.contains(&format!(" {} ", w)))
+	}
+	fn closure(&mut self, c: &ExprClosure, as_writer: bool) -> Value {
+		let mut added = vec![];
+		let mut params = vec![];
+		for p in &c.inputs {
+			let name = match p {
+				Pat::Ident(i) => i.ident.to_string(),
+				Pat::Type(t) => txt(&t.pat),
+				other => txt(other),
+			};
+			params.push(name.clone());
+			if as_writer && self.writers.insert(name.clone()) {
+				added.push(name);
+			}
+		}
+		let body = self.expr(&c.body);
+		for a in added {
+			self.writers.remove(&a);
+		}
+		json!({"c": body, "params": params})
+	}
+	fn block(&mut self, b: &Block) -> Vec<Value> {
+		let mut out = vec![];
+		for s in &b.stmts {
+			match s {
+				Stmt::Local(l) => {
+					let cfg = cfg_of(&l.attrs);
+					if let Some(init) = &l.init {
+						let sk = self.expr(&init.expr);
+						let mut n = json!({"k": "let", "pat": txt(&l.pat), "expr": txt(&init.expr), "cond": cond_json(&init.expr),
+							"line": self.src.line_of(l.span())});
+						if contains_writer_code(&sk) {
+							n["skel"] = Value::Array(sk);
+						}
+						if let Pat::Ident(pi) = &l.pat {
+							if pi.mutability.is_some() {
+								n["mutable"] = json!(true);
+							}
+						}
+						if let Some(c) = cfg {
+							n["cfg"] = json!(c);
+						}
+						out.push(n);
+					}
+				},
+				Stmt::Expr(e, _) => {
+					let v = self.expr(e);
+					if v.is_empty() {
+						out.push(json!({"k": "stmt", "text": txt(e), "line": self.src.line_of(e.span())}));
+					} else {
+						out.extend(v);
+					}
+				},
+				Stmt::Macro(m) => {
+					out.push(json!({"k": "macro", "text": txt(&m.mac), "line": self.src.line_of(m.span())}))
+				},
+				Stmt::Item(_) => {},
+			}
+		}
+		out
+	}
+	fn wrap_cfg(attrs: &[Attribute], inner: Vec<Value>) -> Vec<Value> {
+		match cfg_of(attrs) {
+			Some(c) if !inner.is_empty() => vec![json!({"k": "cfg", "pred": c, "body": inner})],
+			_ => inner,
+		}
+	}
+	fn args_json(&mut self, args: &syn::punctuated::Punctuated<Expr, Token![,]>, writer_closures: bool) -> Vec<Value> {
+		let mut v = vec![];
+		for a in args {
+			if self.is_slot(a) {
+				v.push(json!({"w": true}));
+			} else if let Expr::Closure(c) = a {
+				v.push(self.closure(c, writer_closures));
+			} else {
+				v.push(json!({"e": txt(a)}));
+			}
+		}
+		v
+	}
+	fn expr(&mut self, e: &Expr) -> Vec<Value> {
+		let line = self.src.line_of(e.span());
+		match e {
+			Expr::Block(b) => Self::wrap_cfg(&b.attrs, self.block(&b.block)),
+			Expr::Paren(p) => self.expr(&p.expr),
+			Expr::Group(g) => self.expr(&g.expr),
+			Expr::Reference(r) => self.expr(&r.expr),
+			Expr::Try(t) => {
+				let mut v = self.expr(&t.expr);
+				if let Some(last) = v.last_mut() {
+					if last["k"] == "call" || last["k"] == "cons" {
+						last["try"] = json!(true);
+					}
+				}
+				v
+			},
+			Expr::If(i) => {
+				let t = self.block(&i.then_branch);
+				let f = match &i.else_branch {
+					Some((_, e)) => self.expr(e),
+					None => vec![],
+				};
+				Self::wrap_cfg(
+					&i.attrs,
+					vec![json!({"k": "if", "cond": cond_json(&i.cond), "cond_text": txt(&i.cond), "then": t, "else": f, "line": line})],
+				)
+			},
+			Expr::Match(m) => {
+				let mut arms = vec![];
+				for a in &m.arms {
+					arms.push(json!({"pat": txt(&a.pat), "guard": a.guard.as_ref().map(|(_, g)| txt(g)),
+						"cfg": cfg_of(&a.attrs), "body": self.expr(&a.body)}));
+				}
+				vec![json!({"k": "match", "on": txt(&m.expr), "arms": arms, "line": line})]
+			},
+			Expr::ForLoop(f) => {
+				vec![json!({"k": "for", "pat": txt(&f.pat), "iter": txt(&f.expr), "body": self.block(&f.body), "line": line})]
+			},
+			Expr::While(_) | Expr::Loop(_) => {
+				if self.uses_writer(e) {
+					vec![json!({"k": "opaque", "text": txt(e), "line": line})]
+				} else {
+					vec![]
+				}
+			},
+			Expr::Return(r) => {
+				vec![json!({"k": "return", "expr": r.expr.as_ref().map(|e| txt(e)).unwrap_or_default(), "line": line})]
+			},
+			Expr::Closure(c) => {
+				// a bare closure in statement position: treated as a writer closure only if it mentions a writer
+				let v = self.closure(c, false);
+				v["c"].as_array().cloned().unwrap_or_default()
+			},
+			Expr::MethodCall(m) => {
+				let meth = m.method.to_string();
+				let recv_slot = self.is_slot(&m.receiver);
+				if recv_slot && CONS.contains(&meth.as_str()) {
+					if let Some(Expr::Closure(c)) = m.args.first() {
+						let cl = self.closure(c, true);
+						return vec![json!({"k": "cons", "kind": &meth[6..], "body": cl["c"], "line": line})];
+					}
+				}
+				if recv_slot && (meth == "write_tagged" || meth == "write_tagged_implicit") && m.args.len() == 2 {
+					if let Expr::Closure(c) = &m.args[1] {
+						let cl = self.closure(c, true);
+						return vec![json!({"k": "tagged", "explicit": meth == "write_tagged", "tag": txt(&m.args[0]), "body": cl["c"], "line": line})];
+					}
+				}
+				if recv_slot && meth.starts_with("write_") {
+					let args: Vec<String> = m.args.iter().map(|a| txt(a)).collect();
+					return vec![json!({"k": "prim", "method": meth, "args": args, "line": line})];
+				}
+				if recv_slot {
+					return vec![json!({"k": "opaque", "text": txt(e), "line": line})];
+				}
+				let any_slot = m.args.iter().any(|a| self.is_slot(a));
+				let any_closure = m.args.iter().any(|a| matches!(a, Expr::Closure(_)));
+				let der_ctor = meth.contains("construct_der") || meth == "sign_der";
+				if any_slot || (any_closure && der_ctor) {
+					let args = self.args_json(&m.args, true);
+					return vec![json!({"k": "call", "callee": format!("{} . {}", txt(&m.receiver), meth), "recv": txt(&m.receiver), "method": meth, "args": args, "line": line})];
+				}
+				// receiver or arguments may contain nested writer code (e.g. `x.map(|..| writer…)`): descend
+				let mut v = self.expr(&m.receiver);
+				for a in &m.args {
+					if let Expr::Closure(c) = a {
+						if self.uses_writer(a) {
+							let cl = self.closure(c, false);
+							v.extend(cl["c"].as_array().cloned().unwrap_or_default());
+						}
+					} else if self.uses_writer(a) {
+						v.extend(self.expr(a));
+					}
+				}
+				v
+			},
+			Expr::Call(c) => {
+				let f = txt(&c.func);
+				let any_slot = c.args.iter().any(|a| self.is_slot(a));
+				let any_closure = c.args.iter().any(|a| matches!(a, Expr::Closure(_)));
+				if any_slot || (any_closure && f.contains("construct_der")) {
+					let args = self.args_json(&c.args, true);
+					return vec![json!({"k": "call", "callee": f, "recv": Value::Null, "method": Value::Null, "args": args, "line": line})];
+				}
+				let mut v = vec![];
+				for a in &c.args {
+					if self.uses_writer(a) {
+						v.extend(self.expr(a));
+					}
+				}
+				v
+			},
+			Expr::Macro(m) => {
+				if self.uses_writer(e) {
+					vec![json!({"k": "opaque", "text": txt(m), "line": line})]
+				} else {
+					vec![]
+				}
+			},
+			Expr::Path(_) | Expr::Lit(_) => vec![],
+			_ => {
+				if self.uses_writer(e) {
+					vec![json!({"k": "opaque", "text": txt(e), "line": line})]
+				} else {
+					vec![]
+				}
+			},
+		}
+	}
+}
+
+fn contains_writer_code(v: &[Value]) -> bool {
+	v.iter().any(|n| {
+		let k = n["k"].as_str().unwrap_or("");
+		match k {
+			"cons" | "tagged" | "prim" | "call" | "opaque" => true,
+			"if" => contains_writer_code(n["then"].as_array().unwrap()) || contains_writer_code(n["else"].as_array().unwrap()),
+			"match" => n["arms"].as_array().unwrap().iter().any(|a| contains_writer_code(a["body"].as_array().unwrap())),
+			"for" | "cfg" => contains_writer_code(n["body"].as_array().unwrap()),
+			"let" => n.get("skel").map(|s| contains_writer_code(s.as_array().unwrap())).unwrap_or(false),
+			_ => false,
+		}
+	})
+}
+
+fn run_fn(src: &Src, file: &str, owner: &str, attrs: &[Attribute], sig: &Signature, block: &Block, units: &mut Vec<Value>) {
+	let mut cx = Cx { writers: HashSet::new(), src };
+	let mut params = vec![];
+	for a in &sig.inputs {
+		match a {
+			FnArg::Typed(t) => {
+				let name = txt(&t.pat);
+				let w = is_writer_ty(&t.ty);
+				if w {
+					cx.writers.insert(name.clone());
+				}
+				params.push(json!({"name": name, "ty": txt(&t.ty), "writer": w}));
+			},
+			FnArg::Receiver(r) => params.push(json!({"name": "self", "ty": txt(r), "writer": false})),
+		}
+	}
+	let body = cx.block(block);
+	let writer = contains_writer_code(&body);
+	units.push(json!({"unit": format!("{}{}", owner, sig.ident), "file": file, "line": src.line_of(sig.span()),
+		"cfg": cfg_of(attrs), "params": params, "body": body, "writer": writer}));
+}
+
+pub fn run_file(src: &Src, path: &str, file: &syn::File, units: &mut Vec<Value>) {
+	fn items(src: &Src, path: &str, its: &[Item], units: &mut Vec<Value>) {
+		for it in its {
+			match it {
+				Item::Fn(i) => run_fn(src, path, "", &i.attrs, &i.sig, &i.block, units),
+				Item::Impl(im) => {
+					let ty = txt(&im.self_ty).replace(' ', "");
+					let o = match &im.trait_ {
+						Some((_, p, _)) => format!("<{} as {}>::", ty, txt(p).replace(' ', "")),
+						None => format!("{}::", ty),
+					};
+					for ii in &im.items {
+						if let ImplItem::Fn(m) = ii {
+							run_fn(src, path, &o, &m.attrs, &m.sig, &m.block, units);
+						}
+					}
+				},
+				Item::Mod(m) => {
+					let is_test = m.attrs.iter().any(|a| a.path().is_ident("cfg") && txt(a).contains("test"));
+					if let (Some((_, inner)), false) = (&m.content, is_test) {
+						items(src, path, inner, units);
+					}
+				},
+				_ => {},
+			}
+		}
+	}
+	items(src, path, &file.items, units);
+}
